@@ -8,7 +8,8 @@ these operations emit satisfy it (up to pair-alignment); `opHistory_undo` compos
 Tie (relational), on every replace / replace-around step a real history records from
 split / join / lift / wrap / set_node_markup / set_block_type: the model evaluates the executable guard
 (`structGuardB`, PM/OpGuard.lean, proved to imply `FamilyGuard`: `structGuardB_family`) on the real
-(document, step, next document);
+(document, step, next document) — shape, payload validity, the structure checks of the inverse, the exact fit guard
+`gapFitsBack`, pair-alignment — and, separately, the structural sufficient condition `gapClean` the builders' theorems prove;
   * guard true on a valid normal-form document  =>  the real inverse restores the real document (`family_step`);
   * for the operation kinds whose theorem says so, the guard's parts are true.
 Counts per operation kind and part.
@@ -20,7 +21,7 @@ from prosemirror.transform import ReplaceAroundStep, ReplaceStep
 # is the remaining hypothesis of `opHistory_undo` for them, measured here)
 REPLACE = ("replace", "replace_with", "insert", "delete", "replace_range", "replace_range_with", "delete_range")
 STRUCT = ("split", "join", "lift", "wrap", "set_node_markup", "set_block_type") + REPLACE
-PARTS = ("shape", "payload", "hst", "gapClean", "aligned")
+PARTS = ("shape", "payload", "hst", "gapFits", "aligned")
 
 
 def request(ctx, info, doc, step, res_doc, op, impl_ok, reqs, metas, replay):
@@ -35,15 +36,15 @@ def expected(op, step):
     """the parts the theorems say are true for a step of this operation (pair-alignment is a hypothesis of all of them)"""
     around = isinstance(step, ReplaceAroundStep)
     if op in ("join", "split") and not around:
-        return ("shape", "payload", "hst", "gapClean")
+        return ("shape", "payload", "hst", "gapFits", "gapClean")
     if op == "wrap" and around:
-        return ("shape", "payload", "hst", "gapClean")      # the planner never proposes a leaf wrapper
+        return ("shape", "payload", "hst", "gapFits", "gapClean")      # the planner never proposes a leaf wrapper
     if op == "lift" and around:
-        return ("shape", "payload", "hst", "gapClean")      # ranges come from block_range: both ends at child boundaries
+        return ("shape", "payload", "hst", "gapFits", "gapClean")      # ranges come from block_range: both ends at child boundaries
     if op in ("set_node_markup", "set_block_type") and around:
         new = step.slice.content.first_child
         if new is not None and not new.is_leaf:
-            return ("shape", "payload", "hst", "gapClean")
+            return ("shape", "payload", "hst", "gapFits", "gapClean")
         return ("shape",)                                   # leaf target: finding C04-leaf-retype
     return ()                                               # replace steps of the Fitter / clear_incompatible: measured
 
@@ -54,11 +55,11 @@ def compare(ctx, replay, payload, out):
     if "ok" not in out or out["ok"] is None:
         ctx.mismatch("familyGuard", replay, "guard parts", out)
         return
-    *parts, inv = out["ok"]
-    vals = dict(zip(PARTS, parts))
+    *parts, inv, clean = out["ok"]
+    vals = dict(zip(PARTS, parts), gapClean=clean)
     guard = all(parts)
     ctx.count(f"opguard:{op}:{kind}:" + ("true" if guard else "false"))
-    for name in PARTS:
+    for name in PARTS + ("gapClean",):
         if not vals[name]:
             ctx.count(f"opguard:{op}:{kind}:not-{name}")
     if not inv:
